@@ -49,16 +49,17 @@ func (m *mwallet) stdAddrs() []string {
 
 // World is the state of one generated case.
 type World struct {
-	node             *sim.Node
-	env              *sim.Env
-	wallets          []*mwallet
-	strangers        [][32]byte
-	tipAnnounced     bool
-	journal          []string
-	bindCounter      uint64
-	forcedReorgDepth int
-	flags            map[string]bool
-	gap              uint32
+	node              *sim.Node
+	env               *sim.Env
+	wallets           []*mwallet
+	strangers         [][32]byte
+	tipAnnounced      bool
+	journal           []string
+	bindCounter       uint64
+	forcedReorgDepth  int
+	forcedEqualLength bool
+	flags             map[string]bool
+	gap               uint32
 	// mempool model (C09): pending relevant transactions known to the wallet
 	pending           map[wire.Hash]*wire.MsgTx
 	everSeen          map[wire.Hash]*wire.MsgTx
@@ -634,6 +635,10 @@ func (w *World) actReorg(t *rapid.T) {
 		}
 	}
 	m := d + rapid.IntRange(0, 3).Draw(t, "extra")
+	if w.forcedEqualLength {
+		m = d
+		w.forcedEqualLength = false
+	}
 	// transactions of the disconnected blocks, oldest first
 	var rolled []*wire.MsgTx
 	relevantRolled := false
